@@ -26,7 +26,7 @@
     attr_preserves_wellnested cut_preserves_wellnested map_preserves_wellnested
     chain_wellnested_partial buffers_balanced before_after_any_stream
     invert_wrap_breaks_nesting attr_wrap_emits_empty_wrapper
-    select_only_id_ok filler_unnamed_unchanged
+    select_only_id_ok filler_unnamed_unchanged filler_unnamed_id
     filler_empty_id filler_only_value_attrs_partial filler_no_text_change_partial
     filler_wellnested_partial filler_fills_given_partial filler_checks_given filler_selects_given
     filler_fills_textarea_partial filler_no_passwords
@@ -420,6 +420,12 @@ theorem filler_unnamed_unchanged (c : Cfg) (a : AttrList)
     · split
       · split <;> rfl
       · rfl
+
+/-- Confinement to the controls named in the data, stream level: when no input, select or
+    textarea of the stream has a name with an entry in the data, the filler is the identity
+    (`filler_empty_id` is the special case of empty data). -/
+theorem filler_unnamed_id (c : Cfg) (s : Stream) (h : Unnamed c s) : fill c s = some s :=
+  fillGo_unnamed s h {} rfl rfl
 
 /-- Known finding C20-option-children (negation of `optText`): child elements of an option are
     moved in front of it.  `<form><select name="s"><option><b>x</b>y</option></select></form>`
